@@ -144,6 +144,7 @@ fn full_event(t: &Tables, sc: &Scenario, full: &RunOut, kmax: u64, d: i64, tag: 
            // the search returned by itself inside the query budget (the clock never expired): whatever it handed over last
            // is its final choice with unlimited time
            "ended": ended && !full.panic,
+           "queries": full.queries,
            "final_txt": full.sends.last().map(|x| x["txt"].as_str().unwrap_or("").to_string()).unwrap_or_default(),
            "root_rep": root_rep_counts(t, sc), "root_order": root_order(t, sc)})
 }
@@ -481,6 +482,8 @@ fn repetition_cycle(t: &Tables, b0: &BoardState, rng: &mut StdRng) -> Option<Vec
         let j = rng.gen_range(0..=i);
         m1s.swap(i, j);
     }
+    // cycles whose first move gives check first (perpetual checks: the check extension carries such a line one ply deeper)
+    m1s.sort_by_key(|m| !is_check(m, m.to_move));
     for p1 in &m1s {
         let t1 = printed_move(p1);
         if t1.len() != 4 {
@@ -918,7 +921,7 @@ pub fn scenarios(t: &Tables, seeds: &[String], seed: u64, n_small: usize, n_mate
         }
         let repeater_white = b0.to_move == PieceColor::Black;
         let repeater_ahead = if repeater_white { bal > 0 } else { bal < 0 };
-        if repeater_ahead && rng.gen_bool(0.85) {
+        if repeater_ahead && rng.gen_bool(0.7) {
             continue;
         }
         if let Some(cyc) = repetition_cycle(t, &b0, &mut rng) {
